@@ -339,8 +339,10 @@ class Check:
             "wall_s": round(time.time() - self.t0, 2),
             "violations": len(self.violations),
         }
-        os.makedirs(EVIDENCE, exist_ok=True)
-        with open(os.path.join(EVIDENCE, "%s.json" % self.pid), "w") as f:
+        # a development run that skipped the Coq build is not a record of a check: keep it apart
+        evdir = os.path.join(VERIF, ".dev_evidence") if getattr(self, "no_build", False) else EVIDENCE
+        os.makedirs(evdir, exist_ok=True)
+        with open(os.path.join(evdir, "%s.json" % self.pid), "w") as f:
             json.dump(ev, f, indent=1, default=str)
         shutil.rmtree(self.scratch, ignore_errors=True)
         if any(not v[2] for v in self.violations):
